@@ -251,16 +251,77 @@ def build_epub(conc) -> bytes:
 
 
 # ----------------------------------------------------------------------------- PDF
+# /Filter forms a PDF writer may legally use for an image XObject (ISO 32000-1, 7.4.1: a name or an array of
+# names applied in order).  The LAST filter is the one that says what the decoded data is.
+PDF_FILTERS = {
+    "jpeg": ["/DCTDecode", "[/DCTDecode]", "[/FlateDecode /DCTDecode]", "[/ASCIIHexDecode /DCTDecode]",
+             "[/ASCII85Decode /DCTDecode]"],
+    "raw": ["/FlateDecode", "[/FlateDecode]", "[/ASCII85Decode /FlateDecode]", "[/ASCIIHexDecode /FlateDecode]"],
+}
+
+
+def pdf_encode(data: bytes, form: str) -> bytes:
+    """Stream payload for a filter form: the encoders are applied in reverse order of the decode chain."""
+    import base64
+    import zlib
+    names = form.strip("[]").split()
+    for name in reversed(names):
+        if name == "/FlateDecode":
+            data = zlib.compress(data)
+        elif name == "/ASCIIHexDecode":
+            data = data.hex().encode() + b">"
+        elif name == "/ASCII85Decode":
+            data = base64.a85encode(data) + b"~>"
+        elif name != "/DCTDecode":            # the JPEG file is the DCT-encoded data
+            raise ValueError(name)
+    return data
+
+
 def build_pdf(conc) -> bytes:
-    pages, images = [], {}
+    """Own variant of writers.misc.write_pdf: one Helvetica line per page and image XObjects whose /Filter entry
+    takes the form chosen per anchor (a["pfilter"]; default: the single name)."""
+    objs: list[bytes] = []
+
+    def add(b: bytes) -> int:
+        objs.append(b)
+        return len(objs)
+    font = add(b"<< /Type /Font /Subtype /Type1 /BaseFont /Helvetica /Encoding /WinAnsiEncoding >>")
+    pages_id = add(b"")
+    kids = []
     for u in range(1, conc["nunits"] + 1):
-        pages.append([[900 + u]])
+        content = [b"BT /F1 12 Tf 14 TL 72 760 Td (" + word(900 + u).encode() + b") Tj T* ET"]
+        xobjs = b""
+        k = 0
         for a in conc["anchors"]:
-            if a["unit"] == u:
-                m = conc["media"][a["cands"][0]["to"] - 1]
-                images.setdefault(u - 1, []).append({"kind": "jpeg" if m["kind"] == "jpeg" else "flate", "data": m["data"],
-                                                     "w": m["w"], "h": m["h"]})
-    return misc.write_pdf(pages, None, images)
+            if a["unit"] != u:
+                continue
+            k += 1
+            m = conc["media"][a["cands"][0]["to"] - 1]
+            kind = "jpeg" if m["kind"] == "jpeg" else "raw"
+            form = a.get("pfilter") or PDF_FILTERS[kind][0]
+            payload = pdf_encode(m["data"], form)
+            io_ = add(b"<< /Type /XObject /Subtype /Image /Width %d /Height %d /ColorSpace /DeviceRGB /BitsPerComponent 8 "
+                      b"/Filter %s /Length %d >>\nstream\n" % (m["w"], m["h"], form.encode(), len(payload)) + payload + b"\nendstream")
+            xobjs += b"/Im%d %d 0 R " % (k, io_)
+            content.append(b"q 50 0 0 50 72 %d cm /Im%d Do Q" % (100 + 60 * k, k))
+        stream = b"\n".join(content)
+        cid = add(b"<< /Length %d >>\nstream\n" % len(stream) + stream + b"\nendstream")
+        res = b"<< /Font << /F1 %d 0 R >> " % font + (b"/XObject << " + xobjs + b">> " if xobjs else b"") + b">>"
+        kids.append(add(b"<< /Type /Page /Parent %d 0 R /MediaBox [0 0 612 792] /Contents %d 0 R /Resources " % (pages_id, cid)
+                        + res + b" >>"))
+    objs[pages_id - 1] = b"<< /Type /Pages /Count %d /Kids [" % len(kids) + b" ".join(b"%d 0 R" % x for x in kids) + b"] >>"
+    cat = add(b"<< /Type /Catalog /Pages %d 0 R >>" % pages_id)
+    out = bytearray(b"%PDF-1.4\n%\xe2\xe3\xcf\xd3\n")
+    offs = []
+    for n, o in enumerate(objs, start=1):
+        offs.append(len(out))
+        out += b"%d 0 obj\n" % n + o + b"\nendobj\n"
+    xref = len(out)
+    out += b"xref\n0 %d\n0000000000 65535 f \n" % (len(objs) + 1)
+    for o in offs:
+        out += b"%010d 00000 n \n" % o
+    out += b"trailer\n<< /Size %d /Root %d 0 R >>\nstartxref\n%d\n%%%%EOF\n" % (len(objs) + 1, cat, xref)
+    return bytes(out)
 
 
 # ----------------------------------------------------------------------------- RTF
